@@ -62,7 +62,7 @@ type FuncContract struct {
 	Header      string
 	Props       []string // property ids this contract serves (from "props C07,C08")
 	PanicsIf    []Clause
-	Extern      bool // declared in an ext (.gowp) file
+	Extern      bool           // declared in an ext (.gowp) file
 	Ghosts      []GhostLoopVar // function-level ghost variables
 }
 
@@ -96,13 +96,13 @@ type GhostField struct {
 }
 
 type SpecFile struct {
-	Funcs     []*FuncContract
-	Defines   []*DefineSpec
-	Abstracts []*AbstractSpec
-	Axioms    []*AxiomSpec
-	Sorts     []string
-	Ghosts    []*GhostField
-	Ignores   []string
+	Funcs      []*FuncContract
+	Defines    []*DefineSpec
+	Abstracts  []*AbstractSpec
+	Axioms     []*AxiomSpec
+	Sorts      []string
+	Ghosts     []*GhostField
+	Ignores    []string
 	Implements []ImplSpec
 }
 
